@@ -89,6 +89,11 @@ CONTEXTS = {
     "times": "(2 * {f})",
     "compare": "({f} > 0)",
     "nested": "sqrt(fabs({f}))",
+    # a float-typed (32-bit) operand next to the function result, on either side: the result keeps the function's double value
+    "float-left-times": "(j.q() * {f})",
+    "float-left-plus": "(j.q() + {f})",
+    "float-left-minus": "(j.q() - {f})",
+    "float-right-times": "({f} * j.q())",
     "arg-arith": None,     # function applied to an arithmetic expression
     "int-args": None,      # every argument an int-typed expression: the result is still the function's (floating) value
     "int-args-plus": None,
